@@ -6,6 +6,30 @@ PENDING = "check not built yet in this round (specification and driver in progre
 
 # id -> (level text, level note, technique, design ref)
 BUILT = {
+ "C04": ("TrainSet.tla constructs, for every partially observed screen of 2/3 rows (control in either or both positions, self-pair, "
+         "any mask, value classes ok / 0 / 1 / negative / NaN), the exact sequence each shipped model must be handed through the "
+         "train_model path (which rows, in which order, with which transform as a term, which single-effect table) and when it "
+         "must refuse; TLC checks that no masked row is referenced and every observed row occurs once, and every case is replayed "
+         "into the real models (training arrays, n_obs, table, refusals, direct add_observations on masked data). "
+         "Non-interference is decided by the Functional monitor: for screens that differ only in masked values (0, 1, NaN, "
+         "negative, random) the model data, posterior samples of a pinned chain, every distance chunk, the scores of every "
+         "shipped scorer for several chunk counts and batches, and the selected plate must be identical (key = observed "
+         "projection).",
+         "float32 transform compared at 5e-4 of the magnitude; the legacy samplers' random draws are pinned by a driver-side patch "
+         "so that both runs see identical numbers; two defects found were repaired in /repo.",
+         "TLA+ term construction + TLC; spec->code replay of every exported case; trace validation with a memo-table monitor",
+         "5/C04"),
+ "C18": ("Functional.tla: a memo table from declared inputs (inputs, parameters, seed) to outputs plus the identity of the "
+         "process-global numpy state; Call requires same key => same output and global state untouched; TLC checks the monitor "
+         "against a conforming system under every interleaving with perturbations. Every randomised operation of the statement "
+         "(all generators and smoothers, cover, both hold-outs, random scorer, sub-sampled DBAL triples, score_chunk, policy "
+         "selection, sampling.sample on both MCMC models, and the prepare / train / calculate_scores / select_next_plate commands "
+         "with --seed) is run twice with identical inputs and seed while the driver reseeds and advances the global generator "
+         "differently in between, and a third time with another seed (witness that outputs can change); TraceFunctional decides.",
+         "known finding C18/gibbs-global-rng (legacy Gibbs samplers use numpy.random.* and an unseeded default_rng): reported as "
+         "KNOWN-FINDING for the three training call sites only; calculate_scores ignoring --seed was repaired.",
+         "TLA+ monitor specification + TLC; trace validation of instrumented real runs",
+         "5/C18"),
  "C05": ("DBAL.tla constructs the documented estimator of ONE plate as a term over that plate's own means / variances and the "
          "distance matrix (log-sum over all triples i>j>k of the Gaussian triple term per experiment times the summed pairwise "
          "distance); TLC checks that all C(n,3) triples occur once, that only the plate's own cells are read and every cell is "
